@@ -138,62 +138,43 @@ impl SwiftField for Field61 {
         parse_swift_chars(&transaction_type, "Field 61 transaction type")?;
         pos += 4;
 
-        // Parse customer reference (up to 16 characters until // or end)
+        // Parse customer reference (up to 16 characters until // or end of the first line).
+        // Supplementary details may follow on a second line; "//" only has a meaning on the first.
         let remaining = &input[pos..];
+        let (first_line, next_line) = match remaining.split_once('\n') {
+            Some((first, next)) => (first, Some(next)),
+            None => (remaining, None),
+        };
         let (customer_ref_part, after_customer_ref) =
-            if let Some(double_slash_pos) = remaining.find("//") {
+            if let Some(double_slash_pos) = first_line.find("//") {
                 (
-                    remaining[..double_slash_pos].to_string(),
-                    Some(&remaining[double_slash_pos + 2..]),
+                    first_line[..double_slash_pos].to_string(),
+                    Some(&first_line[double_slash_pos + 2..]),
                 )
             } else {
-                (remaining.to_string(), None)
+                (first_line.to_string(), None)
             };
 
         // Customer reference is up to 16 characters
         let customer_reference;
-        let mut supplementary_details = None;
-
-        // Without a bank reference the supplementary details may follow on the next line
-        let customer_ref_part = if after_customer_ref.is_none()
-            && let Some((first_line, next_line)) = customer_ref_part.split_once('\n')
-        {
-            if !next_line.is_empty() {
-                supplementary_details = Some(next_line.to_string());
-            }
-            first_line.to_string()
-        } else {
-            customer_ref_part
-        };
+        let mut supplementary_details = next_line
+            .filter(|line| !line.is_empty())
+            .map(|line| line.to_string());
 
         if customer_ref_part.len() <= 16 {
             customer_reference = customer_ref_part;
         } else {
             customer_reference = customer_ref_part[..16].to_string();
             // If customer ref part is > 16 chars and no //, rest is supplementary details
-            if after_customer_ref.is_none()
-                && customer_ref_part.len() > 16
-                && supplementary_details.is_none()
-            {
+            if after_customer_ref.is_none() && supplementary_details.is_none() {
                 supplementary_details = Some(customer_ref_part[16..].to_string());
             }
         }
 
-        // Parse bank reference and supplementary details (after //)
-        // Format after //: bank_reference[16x][\n]supplementary_details[34x]
-        // Supplementary details may be on a new line or directly concatenated
+        // Bank reference (after //): up to 16 characters; anything beyond is concatenated
+        // supplementary details
         let bank_reference = if let Some(bank_ref_str) = after_customer_ref {
-            // Check if there's a newline separating bank ref from supplementary details
-            if let Some(newline_pos) = bank_ref_str.find('\n') {
-                // Bank reference is before newline, supplementary details after
-                let bank_ref = bank_ref_str[..newline_pos].to_string();
-                if newline_pos + 1 < bank_ref_str.len() {
-                    supplementary_details = Some(bank_ref_str[newline_pos + 1..].to_string());
-                }
-                Some(bank_ref)
-            } else if bank_ref_str.len() > 16 {
-                // No newline, but string is longer than bank ref max
-                // First 16 chars = bank reference, rest = supplementary details
+            if bank_ref_str.len() > 16 && supplementary_details.is_none() {
                 supplementary_details = Some(bank_ref_str[16..].to_string());
                 Some(bank_ref_str[..16].to_string())
             } else if !bank_ref_str.is_empty() {
@@ -215,6 +196,11 @@ impl SwiftField for Field61 {
         parse_swift_chars(&customer_reference, "Field 61 customer reference")?;
 
         if let Some(ref bank_ref) = bank_reference {
+            if bank_ref.len() > 16 {
+                return Err(ParseError::InvalidFormat {
+                    message: "Field 61 bank reference exceeds 16 characters".to_string(),
+                });
+            }
             parse_swift_chars(bank_ref, "Field 61 bank reference")?;
         }
 
